@@ -45,9 +45,16 @@
    some (PerKeyRaceProofs.v): a shed is justified by the count that was read, not by the count at
    the time the caller learns about it.
 
-   There is no harness for this file: real thread races are not reproducible deterministically;
-   the sequential behaviour (no op between the actions of one poll) is PerKey.v, which the C13
-   correspondence check ties to the code. *)
+   Tie to the code (part `race` of the C13 check, harness/src/c13r.rs, Checks/C13rcheck.v): hook H5
+   puts a yield point exactly at each boundary between these actions (`cpk_before_upgrade`,
+   `cpk_before_recv`, `cpk_before_check`) and inside `Tracker::drop` before it sends
+   (`cpk_tracker_drop`, the gap between RRelease and RNotify).  The yield callback does on the
+   polling thread what another thread could do at that point (the effect on the Arc counts and on
+   `dropped_keys` is the same), the real run is logged as the flat `rop` list it amounts to and
+   compared with `rrun` op by op: decision-view observations and the program counter after every
+   listener action.  What stays assumed is real OS-thread scheduling (that the boundaries above are
+   the only points where another thread's action can take effect) and the memory ordering of the
+   count reads.  The sequential behaviour (no op between the actions of one poll) is PerKey.v. *)
 From Coq Require Import List Arith Bool.
 Import ListNotations.
 From TarpcV Require Import PerKey.
